@@ -158,7 +158,11 @@ def gen_forms(rng):
     return {"dtype": rng.choice(["one", "one", "dict", "dictsol", "dictmix"]),
             "ranges": rng.choice(["tuples", "tuples", "nd", "lists"]),
             "args": rng.choice(["nd", "nd", "list", "kw", "native", "strided"]),
-            "kworder": rng.choice(["same", "alt"])}
+            "kworder": rng.choice(["same", "alt"]),
+            # a caller that copies elites between archives passes every stored field along, `threshold` too
+            # (`dst.add(**src.data([...]))`): GridArchive / CVTArchive accept the keyword and must store the threshold
+            # they compute, never the caller's number
+            "thrkw": rng.random() < 0.15}
 
 
 def submit(archive, case, single, sol, obj, meas, extras):
@@ -175,6 +179,8 @@ def submit(archive, case, single, sol, obj, meas, extras):
         extras = dict(reversed(list(extras.items())))      # the extra fields as keywords in another order
     sol = np.array(sol)                                     # private copies: what follows trashes them
     extras = {k: np.array(v) for k, v in extras.items()}
+    if case.get("forms", {}).get("thrkw") and n and case.get("kind") in ("grid", "cvt"):
+        extras["threshold"] = np.array([1000.0 + 3 * k for k in range(n)], dtype=npdt)
     if form == "native":
         obj, meas = (None if obj is None else obj.astype(npdt)), meas.astype(NP[meas_dtype(case)])
     elif form == "strided" and n:
